@@ -5,6 +5,50 @@ use crate::ir::{Pieces, RetainSpec};
 use crate::outcome::Injected;
 use std::fmt;
 
+// ---- side effects of callbacks on other handles (armed by the executor around the real operation only)
+
+pub struct FxState {
+    pub at: u16,
+    pub drop: bool,
+    pub target: *mut Option<lean_string::LeanString>,
+    pub extras: Vec<lean_string::LeanString>,
+    pub fired: bool,
+}
+
+thread_local! {
+    static FX: std::cell::RefCell<Option<FxState>> = const { std::cell::RefCell::new(None) };
+}
+
+pub fn fx_arm(at: u16, drop: bool, target: *mut Option<lean_string::LeanString>) {
+    FX.with(|f| *f.borrow_mut() = Some(FxState { at, drop, target, extras: Vec::with_capacity(2), fired: false }));
+}
+
+/// disarms; returns whether the side effect happened (extra clones are dropped here)
+pub fn fx_disarm() -> bool {
+    FX.with(|f| f.borrow_mut().take()).map(|s| s.fired).unwrap_or(false)
+}
+
+/// called by every harness callback with its invocation number
+pub fn fx_tick(k: u32) {
+    let _ = FX.try_with(|f| {
+        if let Ok(mut g) = f.try_borrow_mut() {
+            if let Some(st) = g.as_mut() {
+                if !st.fired && st.at as u32 == k {
+                    st.fired = true;
+                    // SAFETY: `target` points at a slot other than the one the running operation borrows
+                    unsafe {
+                        if st.drop {
+                            *st.target = None;
+                        } else if let Some(s) = (*st.target).as_ref() {
+                            st.extras.push(s.clone());
+                        }
+                    }
+                }
+            }
+        }
+    });
+}
+
 pub struct PlanIter<I> {
     pub inner: I,
     pub n: u32,
@@ -28,6 +72,7 @@ impl<I: Iterator> Iterator for PlanIter<I> {
     fn next(&mut self) -> Option<I::Item> {
         let k = self.n;
         self.n += 1;
+        fx_tick(k);
         if let Some(p) = self.panic_at {
             if p as u32 == k {
                 std::panic::panic_any(Injected(p));
@@ -50,6 +95,7 @@ impl fmt::Display for PiecesDisplay<'_> {
     fn fmt(&self, f: &mut fmt::Formatter<'_>) -> fmt::Result {
         let n = self.0.pieces.len();
         for i in 0..=n {
+            fx_tick(i as u32);
             if self.0.panic_at == Some(i as u16) {
                 std::panic::panic_any(Injected(i as u16));
             }
@@ -57,7 +103,13 @@ impl fmt::Display for PiecesDisplay<'_> {
                 return Err(fmt::Error);
             }
             if i < n {
-                f.write_str(&self.0.pieces[i])?;
+                let p = &self.0.pieces[i];
+                let mut cs = p.chars();
+                match (cs.next(), cs.next()) {
+                    // single characters go through Formatter::write_char, like a `char` argument or a fill does
+                    (Some(c), None) => std::fmt::Write::write_char(f, c)?,
+                    _ => f.write_str(p)?,
+                }
             }
         }
         Ok(())
@@ -77,6 +129,7 @@ pub fn retain_pred(spec: RetainSpec) -> impl FnMut(char) -> bool {
     move |_c| {
         let k = i;
         i += 1;
+        fx_tick(k);
         if let Some(p) = spec.panic_at {
             if p as u32 == k {
                 std::panic::panic_any(Injected(p));
